@@ -42,3 +42,16 @@ Example C04_nonvacuous :
      [mklin (mkpx 9 9 9 9) 255 0; mklin (mkpx 8 8 8 8) 255 0; mklin (mkpx 7 7 7 7) 255 0; mklin (mkpx 6 6 6 6) 255 0] = Some out
    /\ out = [mkpx 9 9 9 9; mkpx 1 2 3 4; mkpx 1 2 3 4; mkpx 6 6 6 6].
 Proof. eexists. split; reflexivity. Qed.
+
+(* the producer side for path fills (line-only paths inside the clip): every column the scan converter covers on a walked row
+   lies between the rounded abscissas of two edges that are active on that row -- the spans handed to the blitter never leave the
+   horizontal extent of the shape on that row (and the rows are those of the edges: C02_edge_rows) *)
+From TS Require Import Model.Rect Model.PathBuilder Model.Edge Model.Walk Proofs.WalkProofs Proofs.WalkSorted Proofs.WalkRows Proofs.WalkBalanced.
+Theorem C04_fill_footprint :
+  forall p es start stop rc eo out,
+  build_edges p 0 = Some (Some es) -> fill_spans es start stop rc eo 0 = Some out ->
+  (forall e, In e es -> (start <= e_first_y e)%Z) -> (0 <= start)%Z -> (0 <= stop)%Z ->
+  forall yy c, (start <= yy)%Z -> ((yy < stop)%Z \/ yy = start) -> (forall e, In e (active_at es yy) -> x_ok e) ->
+  cov out yy c ->
+  (exists e, In e (active_at es yy) /\ (rx e <= c)%Z) /\ (exists e, In e (active_at es yy) /\ (c < rx e)%Z).
+Proof. exact fill_footprint. Qed.
